@@ -112,6 +112,7 @@ struct PendingState {
 
 struct ActiveState {
     local_nonce: u32,
+    remote_nonce: u32,
     half_connection: half_connection::HalfConnection,
     timeout_time_ms: u64,
     disconnect_signal: Option<DisconnectMode>,
@@ -458,6 +459,7 @@ impl Client {
 
                     self.state = State::Active(ActiveState {
                         local_nonce: state.local_nonce,
+                        remote_nonce: frame.nonce,
                         half_connection,
                         timeout_time_ms: now_ms + self.config.endpoint_config.active_timeout_ms,
                         disconnect_signal: None,
@@ -468,9 +470,11 @@ impl Client {
                 // A matching SYN+ACK has already been received, so acknowledge this one assuming
                 // the nonce ack matches ours (and ignore it otherwise). This case is only
                 // encountered when our initial ACK was dropped - all that matters is that the
-                // server receives an ACK.
+                // server receives an ACK. A SYN+ACK carrying a different server nonce belongs to another
+                // handshake (a stale duplicate of our SYN reached a server which has forgotten us) and must
+                // not be acknowledged.
 
-                if frame.nonce_ack == state.local_nonce {
+                if frame.nonce_ack == state.local_nonce && frame.nonce == state.remote_nonce {
                     let reply = frame::Frame::HandshakeAckFrame(frame::HandshakeAckFrame {
                         nonce_ack: frame.nonce,
                     });
